@@ -2,6 +2,7 @@ package yyflow
 
 import (
 	"fmt"
+	"go/ast"
 	"go/types"
 	"sort"
 	"strings"
@@ -521,4 +522,48 @@ func (l *Lang) SlotKinds() map[string]map[string]bool {
 		}
 	}
 	return out
+}
+
+// IgnoresTrivia: no grammar action and no hand-written parser function makes a
+// decision that depends on free-floating tokens or on positions (so whitespace,
+// comments and line endings cannot change which nodes are built).
+func (l *Lang) IgnoresTrivia() *report.RuleResult {
+	res := report.NewResult("grammar-ignores-trivia")
+	nconds := 0
+	bad := map[string]string{}
+	for _, f := range l.Pkg.Syntax {
+		ast.Inspect(f, func(n ast.Node) bool {
+			var cond ast.Expr
+			switch x := n.(type) {
+			case *ast.IfStmt:
+				cond = x.Cond
+			case *ast.SwitchStmt:
+				cond = x.Tag
+			case *ast.ForStmt:
+				cond = x.Cond
+			}
+			if cond == nil {
+				return true
+			}
+			nconds++
+			ast.Inspect(cond, func(m ast.Node) bool {
+				if se, ok := m.(*ast.SelectorExpr); ok {
+					switch se.Sel.Name {
+					case "FreeFloating", "StartLine", "EndLine", "StartPos", "EndPos":
+						bad[l.Prog.Pos(cond.Pos())] = types.ExprString(cond)
+					}
+				}
+				return true
+			})
+			return true
+		})
+	}
+	res.Count("conditions", nconds)
+	if len(bad) == 0 {
+		res.OK(l.L.Label, l.L.G.File, "", fmt.Sprintf("%d conditions in package internal/%s: none reads free-floating tokens or positions", nconds, l.L.Label))
+	}
+	for pos, c := range bad {
+		res.Bad(l.L.Label+"/"+c, pos, "", "a parser decision depends on trivia or positions: "+c)
+	}
+	return res
 }
